@@ -458,8 +458,12 @@ func (self *VM) Wait() (coreNum uint, i *value.VmInterrupt) {
 			select {
 			case i := <-core.SignalHandle:
 				if i == nil {
-					newCores := make([]Core, 0)
+					self.Cores.Lock.RUnlock()
 
+					// Rebuild the list inside the write-lock section: a core spawned between
+					// reading and replacing the list must not be dropped.
+					self.Cores.Lock.Lock()
+					newCores := make([]Core, 0)
 					for _, coreIter := range self.Cores.Cores {
 						if coreIter.Corenum == core.Corenum {
 							continue
@@ -467,10 +471,6 @@ func (self *VM) Wait() (coreNum uint, i *value.VmInterrupt) {
 
 						newCores = append(newCores, coreIter)
 					}
-
-					self.Cores.Lock.RUnlock()
-
-					self.Cores.Lock.Lock()
 					self.Cores.Cores = newCores
 					self.Cores.Lock.Unlock()
 
